@@ -36,35 +36,39 @@ type Spec struct {
 }
 
 type Contract struct {
-	Key      string // "(Keeper).Borrow", "(*Commitments).AddCommittedTokens", "FuncName"
-	PkgPath  string
-	File     string
-	Line     int
-	Requires []*Clause
-	Ensures  []*Clause
-	OnPanic  []*Clause // obligations on panicking exits
-	Callers  []*Clause // the only functions allowed to call this one (Src is the comma-separated list)
-	Commutes []*Clause // two calls (arguments X and X2) commute on the ghost world when the clause holds
-	Mints    []*Clause // for every bank mint on a path and every denom d with non-zero amount
-	Burns    []*Clause // likewise for burns
-	SupplyWrapper bool // forwards its coins argument to a bank mint/burn: its callers are the sites
-	MigrationOnly bool // must be unreachable from message and block entry points
-	Modifies []string
-	HasMod   bool
-	Bounds   map[string]int
-	NoPanic  bool
-	Inline   bool
-	Trusted  bool // assumed, not verified (listed in the evidence as an assumption)
-	Derived  string
-	HavocOnly bool
-	FrameOnly bool
-	Pure      bool
-	Alias    []string // positional parameter names of the interface method (receiver first)
-	Iface    bool // contract of an interface method (hooks, external keepers)
-	DecAbs   bool
-	Foralls  map[string]smt.Sort // implicitly universally quantified identifiers
-	Lets     []letDecl
-	Fn       *ssa.Function
+	Key           string // "(Keeper).Borrow", "(*Commitments).AddCommittedTokens", "FuncName"
+	PkgPath       string
+	File          string
+	Line          int
+	Requires      []*Clause
+	Ensures       []*Clause
+	OnPanic       []*Clause // obligations on panicking exits
+	Assumes       []*Clause // state invariants assumed at entry (not proved at call sites; listed as assumptions)
+	Callers       []*Clause // the only functions allowed to call this one (Src is the comma-separated list)
+	Commutes      []*Clause // two calls (arguments X and X2) commute on the ghost world when the clause holds
+	Mints         []*Clause // for every bank mint on a path and every denom d with non-zero amount
+	Burns         []*Clause // likewise for burns
+	SupplyWrapper bool      // forwards its coins argument to a bank mint/burn: its callers are the sites
+	MigrationOnly bool      // must be unreachable from message and block entry points
+	Modifies      []string
+	HasMod        bool
+	Bounds        map[string]int
+	NoPanic       bool
+	Inline        bool
+	Entry         bool // an entry point of the chain (message handler or block function)
+	Reader        bool // reads the invariant's state only; its callers need no contract
+	InlineOwn     bool
+	Trusted       bool // assumed, not verified (listed in the evidence as an assumption)
+	Derived       string
+	HavocOnly     bool
+	FrameOnly     bool
+	Pure          bool
+	Alias         []string // positional parameter names of the interface method (receiver first)
+	Iface         bool     // contract of an interface method (hooks, external keepers)
+	DecAbs        bool
+	Foralls       map[string]smt.Sort // implicitly universally quantified identifiers
+	Lets          []letDecl
+	Fn            *ssa.Function
 }
 
 type letDecl struct {
@@ -322,7 +326,7 @@ func (ss *SpecSet) directive(cur **Contract, pkgPath, file string, ln int, body 
 			}
 		}
 		(*cur).Callers = append((*cur).Callers, c)
-	case "requires", "ensures", "onpanic", "mints", "burns", "commutes":
+	case "requires", "ensures", "onpanic", "mints", "burns", "commutes", "assumes":
 		if *cur == nil {
 			return fail(fmt.Errorf("%s outside a func block", word))
 		}
@@ -337,6 +341,8 @@ func (ss *SpecSet) directive(cur **Contract, pkgPath, file string, ln int, body 
 			(*cur).Ensures = append((*cur).Ensures, c)
 		case "onpanic":
 			(*cur).OnPanic = append((*cur).OnPanic, c)
+		case "assumes":
+			(*cur).Assumes = append((*cur).Assumes, c)
 		case "commutes":
 			(*cur).Commutes = append((*cur).Commutes, c)
 		case "mints":
@@ -466,6 +472,17 @@ func (ss *SpecSet) directive(cur **Contract, pkgPath, file string, ln int, body 
 		(*cur).NoPanic = true
 	case "inline":
 		(*cur).Inline = true
+	case "entry":
+		(*cur).Entry = true
+	case "reader", "other-tables":
+		// the (checked) frame of this function excludes the invariant's tables: its callers
+		// need no contract on its account
+		(*cur).Reader = true
+	case "inline-within-module":
+		// used by contract at call sites in other modules only; functions of its own module
+		// under verification see the body (both are sound; the body keeps the detail the
+		// module's own invariants need)
+		(*cur).InlineOwn = true
 	case "decabstract":
 		(*cur).DecAbs = true
 	case "forall":
@@ -1173,12 +1190,38 @@ func (ev *evalEnv) call(x *ast.CallExpr) tval {
 		case "wrote": // wrote(ctx): any state-changing primitive ran on this path
 			c := ev.ctxArg(x, 0)
 			return tval{smt.BoolC(len(c.W.Log) != ev.oldLogLen()), boolT}
+		case "row": // row(ctx, "table-id", "pkg.Type", keys...): the stored row, read without forking
+			c := ev.ctxArg(x, 0)
+			id := ex.term(ev.eval(x.Args[1]).V).Name
+			tn := ex.term(ev.eval(x.Args[2]).V).Name
+			var from string
+			if ev.pkg != nil {
+				from = ev.pkg.Path()
+			}
+			rt, err := ex.Cfg.EnvRef.lookupType(from, tn)
+			if err != nil {
+				ev.fail(x, "%v", err)
+			}
+			var ks []*smt.Term
+			for _, a := range x.Args[3:] {
+				ks = append(ks, ex.keyTerms(ev.eval(a).V)...)
+			}
+			return tval{ex.rowMerged(c.W, id, ks, rt), rt}
+		case "rowU64": // rowU64(ctx, "table-id", keys...): a stored big-endian counter, 0 when absent
+			c := ev.ctxArg(x, 0)
+			id := ex.term(ev.eval(x.Args[1]).V).Name
+			var ks []*smt.Term
+			for _, a := range x.Args[2:] {
+				ks = append(ks, ex.keyTerms(ev.eval(a).V)...)
+			}
+			v := ex.rowMerged(c.W, id, ks, types.Typ[types.Uint64]).(*smt.Term)
+			return tval{smt.Ite(ex.hasTerm(c.W, id, ks), v, smt.IntC(0)), types.Typ[types.Uint64]}
 		case "has": // has(ctx, "table-id", keys...)
 			c := ev.ctxArg(x, 0)
 			id := ex.term(ev.eval(x.Args[1]).V).Name
 			var ks []*smt.Term
 			for _, a := range x.Args[2:] {
-				ks = append(ks, ex.term(ev.eval(a).V))
+				ks = append(ks, ex.keyTerms(ev.eval(a).V)...)
 			}
 			return tval{ex.hasTerm(c.W, id, ks), boolT}
 		}
